@@ -17,3 +17,4 @@ CFG = dict(
                 "order and is only issued in racy mode.",
      assumptions=["testing/synctest virtual time is correct", "the limiter's default real clock is virtual inside the bubble"],
      timeout_quick=600, timeout_thorough=3000)
+CFG["rule"] += ' Added after independently written breaking changes: The pending-events cap is asserted in racy bursts too: once settled, the Adds issued after the most recent signal number fewer than the cap.'
